@@ -858,6 +858,15 @@ ORDER_MECHANISMS = [("C14-pth-listing-order", _pth_pins), ("C14-dotted-pyi-name-
                     ("C14-stubs-merged-then-replaced", _stub_replace_pins)]
 
 
+def _mechanisms_known_first() -> list:
+    """Mechanisms still listed as `known` are tried before repaired ones: the counterfactual (pin the blamed directories)
+    of a repaired mechanism can succeed by accident when the same directory also hosts a known one."""
+    from vf.core.rec import known_findings
+
+    status = {fid: known_findings().get(fid, {}).get("status") for fid, _ in ORDER_MECHANISMS}
+    return sorted(ORDER_MECHANISMS, key=lambda m: 0 if status.get(m[0]) == "known" else 1)
+
+
 def classify_order_dependence(case: dict, root: str, request, base: dict, other: dict, other_k: int, search) -> list[str]:  # noqa: ANN001
     """Counterfactual predicates: the dependence disappears when exactly the directories named by the mechanism(s) are
     listed in sorted order while every other listing stays permuted.  Each round looks at the first remaining difference,
@@ -872,7 +881,7 @@ def classify_order_dependence(case: dict, root: str, request, base: dict, other:
             return found
         at = "outcome" if current["outcome"] != base["outcome"] else describe_diff(base, current)["at"]
         progressed = False
-        for fid, pins_of in ORDER_MECHANISMS:
+        for fid, pins_of in _mechanisms_known_first():
             more = pins_of(case, root, at) - pins
             if not more:
                 continue
